@@ -193,6 +193,11 @@ func H_C05_rank(v *V) {
 		iniText = key + " = n:" + N1 + "\n"
 		cliArgs = []string{"--" + key + "=c:" + C1}
 	}
+	if kind == 1 && v.Choice(2) == 1 {
+		// a trailing delimiter denotes one more, empty, element
+		envText += ","
+		envV = append(envV, "")
+	}
 	if opt == 7 {
 		iniText = "[g]\nN = " + N1 + "\n"
 	}
